@@ -617,6 +617,63 @@ class LAX:
     return out.transpose(inv)
 
   @staticmethod
+  def conv_general_dilated_local(lhs, rhs, window_strides, padding, filter_shape,
+                                 lhs_dilation=None, rhs_dilation=None,
+                                 dimension_numbers=None, precision=None):
+    """unshared convolution (documented semantics): out[n, o, f] = sum over input
+    channel c and filter tap w of x[n, o*stride + w*rhs_dil - lo, c] *
+    rhs[o, c * prod(filter) + flat(w), f]; rhs: (out spatial..., C*prod(filter), F)"""
+    lhs, rhs = _a(lhs), _a(rhs)
+    nd = lhs.ndim - 2
+    lspec, rspec, ospec = (dimension_numbers.lhs_spec, dimension_numbers.rhs_spec,
+                           dimension_numbers.out_spec)
+    assert tuple(lspec) == (0, nd + 1) + tuple(range(1, nd + 1)), 'N..C layout only'
+    N, C = lhs.shape[0], lhs.shape[-1]
+    sp = lhs.shape[1:-1]
+    k = tuple(filter_shape)
+    ld = tuple(lhs_dilation) if lhs_dilation else (1,) * nd
+    rd = tuple(rhs_dilation) if rhs_dilation else (1,) * nd
+    st = tuple(window_strides)
+    dil_in = [(s_ - 1) * d + 1 for s_, d in zip(sp, ld)]
+    dil_k = [(s_ - 1) * d + 1 for s_, d in zip(k, rd)]
+    if isinstance(padding, str):
+      pads = []
+      for i in range(nd):
+        if padding.upper() == 'VALID':
+          pads.append((0, 0))
+        else:
+          out = -(-dil_in[i] // st[i])
+          tot = max((out - 1) * st[i] + dil_k[i] - dil_in[i], 0)
+          pads.append((tot // 2, tot - tot // 2))
+    else:
+      pads = [tuple(p) for p in padding]
+    out_sp = [(dil_in[i] + pads[i][0] + pads[i][1] - dil_k[i]) // st[i] + 1
+              for i in range(nd)]
+    F = rhs.shape[-1]
+    K = 1
+    for kk in k:
+      K *= kk
+    assert tuple(rhs.shape) == tuple(out_sp) + (C * K, F), (rhs.shape, out_sp, C, K, F)
+    res = []
+    for n in range(N):
+      for oidx in itertools.product(*[range(s_) for s_ in out_sp]):
+        for f in range(F):
+          acc = S(0)
+          for c in range(C):
+            for wi, w in enumerate(itertools.product(*[range(s_) for s_ in k])):
+              src, ok = [], True
+              for i in range(nd):
+                p = oidx[i] * st[i] + w[i] * rd[i] - pads[i][0]
+                if p < 0 or p >= dil_in[i] or p % ld[i] != 0:
+                  ok = False
+                  break
+                src.append(p // ld[i])
+              if ok:
+                acc = acc + lhs.at([n] + src + [c]) * rhs.at(list(oidx) + [c * K + wi, f])
+          res.append(acc)
+    return A(res, [N] + out_sp + [F])
+
+  @staticmethod
   def dynamic_update_slice(operand, update, start_indices):
     """start indices must be concrete here; out-of-range starts are clamped (lax)"""
     operand, update = _a(operand), _a(update)
@@ -770,6 +827,15 @@ def validate(seed=0, n=3):
               LAX.conv_transpose(seq, kk, (st,), pad, (rd,), None, tk),
               lax.conv_transpose(jnp.asarray(seq), jnp.asarray(kk), (st,), pad, (rd,),
                                  None, tk), 1e-4)
+    for pad, st, rd_ in (('VALID', (1, 1), (1, 1)), ('SAME', (2, 1), (1, 1)),
+                         ('VALID', (1, 2), (1, 2))):
+      shp = jax.eval_shape(lambda a_, b_: lax.conv_general_dilated(
+          a_, b_, st, pad, None, rd_, dn), jnp.asarray(img), jnp.asarray(ker)).shape
+      lk = r(*(tuple(shp[1:-1]) + (2 * 3 * 2, 4)))
+      check('conv_local %r %r %r' % (pad, st, rd_),
+            LAX.conv_general_dilated_local(img, lk, st, pad, (2, 3), None, rd_, dn),
+            lax.conv_general_dilated_local(jnp.asarray(img), jnp.asarray(lk), st, pad,
+                                           (2, 3), None, rd_, dn), 1e-4)
     ker_g = r(2, 2, 1, 4)
     check('conv groups', LAX.conv_general_dilated(img, ker_g, (1, 1), 'SAME',
                                                   None, None, dn, 2),
